@@ -93,24 +93,43 @@ func runDriver(verif, repo, pkg, focus string, deep bool) replayResult {
 	ctx, cancel := context.WithTimeout(context.Background(), time.Duration(limit+30)*time.Second)
 	defer cancel()
 	args := []string{"test", "-overlay", ovf, "-vet=off", "-count=1", "-timeout", fmt.Sprintf("%ds", limit), "-run", "^" + d.run + "$", "./" + d.pkg}
-	cmd := exec.CommandContext(ctx, "go", args...)
-	cmd.Dir = repo
-	cmd.Env = append(os.Environ(), "GOFLAGS=-mod=mod", "GOPROXY=off", "VERIF_REPLAY_FOCUS="+focus)
-	if deep {
-		cmd.Env = append(cmd.Env, "VERIF_REPLAY_DEEP=1")
+	// deep (thorough tier): the drivers that take VERIF_REPLAY_SEED are run with several seeds
+	seeds := []string{""}
+	if deep && pkg != "db" && pkg != "acl" {
+		seeds = []string{"1", "2", "3", "4", "5"}
 	}
-	cmd.Env = append(cmd.Env, extraEnv...)
-	out, err := cmd.CombinedOutput()
-	res := replayResult{Attempted: true, Driver: d.file, Command: "cd " + repo + " && VERIF_REPLAY_FOCUS='" + focus + "' go " + strings.Join(args, " ")}
-	s := string(out)
-	if i := strings.Index(s, "REPLAY-COUNTEREXAMPLE"); i >= 0 {
-		res.Reproduced = true
-		s = s[i:]
+	var res replayResult
+	// (err declared above)
+	for _, seed := range seeds {
+		cmd := exec.CommandContext(ctx, "go", args...)
+		cmd.Dir = repo
+		cmd.Env = append(os.Environ(), "GOFLAGS=-mod=mod", "GOPROXY=off", "VERIF_REPLAY_FOCUS="+focus)
+		if deep {
+			cmd.Env = append(cmd.Env, "VERIF_REPLAY_DEEP=1")
+		}
+		if seed != "" {
+			cmd.Env = append(cmd.Env, "VERIF_REPLAY_SEED="+seed)
+		}
+		cmd.Env = append(cmd.Env, extraEnv...)
+		var out []byte
+		out, err = cmd.CombinedOutput()
+		res = replayResult{Attempted: true, Driver: d.file, Command: "cd " + repo + " && VERIF_REPLAY_FOCUS='" + focus + "' go " + strings.Join(args, " ")}
+		if len(seeds) > 1 {
+			res.Command += "   (seeds " + strings.Join(seeds, ",") + ")"
+		}
+		s := string(out)
+		if i := strings.Index(s, "REPLAY-COUNTEREXAMPLE"); i >= 0 {
+			res.Reproduced = true
+			s = s[i:]
+		}
+		if len(s) > 5000 {
+			s = s[:5000] + "...(truncated)"
+		}
+		res.Output = s
+		if res.Reproduced || err != nil {
+			break
+		}
 	}
-	if len(s) > 5000 {
-		s = s[:5000] + "...(truncated)"
-	}
-	res.Output = s
 	if !res.Reproduced {
 		if err == nil {
 			res.Note = "the driver found no failing input within its bounds"
